@@ -345,4 +345,8 @@ pub(crate) mod verif_hooks {
     pub fn collect(m: &Metrics) -> String {
         String::from_utf8_lossy(&m.collect().1).to_string()
     }
+
+    pub async fn serve_connection(context: Arc<core::Context>, stream: TcpStream) {
+        handle_request(context, stream, log_utils::IdChain::empty()).await
+    }
 }
